@@ -188,23 +188,33 @@ class C02(Property):
     PID = 'C02'
     QUICK_BUDGET_S = 38
     THOROUGH_BUDGET_S = 600
-    RULE = ('a case is one whole history of dict-API calls (item get/set/del, get, setdefault, update with '
-            'mapping/pairs/iterator/self/kwargs, |=, pop, popitem, clear, copy, in, len, iteration, ==/!= against '
-            'dicts and other caches) on an LRI or LRU with max_size 1-5 (8 in thorough), on_miss None, k->a*k+b, or that function raising KeyError / ValueError for chosen keys, '
-            'optionally constructor values, over max_size+1..+3 keys (strings, or the aliases 1/1.0/True), ended by a '
-            'probe that inserts max_size fresh keys into every cache so that the eviction order becomes visible; '
-            'every cache of the world is dumped (items/keys/values/iter/len/in/counters/max_size/on_miss) after every '
-            'call. Exhaustive: all histories of <=2 calls over a 38-call alphabet on 3 keys x max_size 1-3 x both '
-            'classes x on_miss none / total / raising; 14k (thorough 60k) sampled 3-5-call histories on pre-filled caches; '
-            'adversarial scripts (reassign-oldest, lookup-oldest, |=/update overflow with duplicates, copy after '
-            'reordering then diverge, remove-then-refill, == with equal-length dicts, self-update, copy of a copy); '
-            'random histories of 4-40 (thorough up to 300) calls. Non-trivial = at least one eviction happened in '
-            'the reference cache; distinct = distinct whole case.')
+    RULE = ('a case is one whole history of dict-API calls (item get/set/del, get, setdefault, update and |= with a '
+            'dict / list of pairs / one-shot iterator / mapping object that is not a dict / the cache itself / ANOTHER cache '
+            'of the world / an iterable that raises after some pairs / a list with a malformed element, update keyword '
+            'arguments, pop, popitem, clear, copy, in, len, iteration, ==/!= against dicts, other caches and non-mappings '
+            '(None, 5, a string, a list)) on an LRI or LRU with max_size 1-5 (8 in thorough; 33-200 in the big family), '
+            'on_miss None, k->a*k+b (also returning None), or that function raising KeyError / ValueError for chosen keys, '
+            'constructor values passed as list / dict / iterator / mapping object, over max_size+1..+3 keys (strings, the '
+            'aliases 1/1.0/True, or exotic hashables: None, (), \'\', tuples, frozensets, negative and huge ints, bytes), '
+            'ended by a probe that inserts max_size (+1 in the scripted, adversarial and half of the random cases) fresh keys '
+            'into every cache so that the eviction order, and any link left behind in the ring, becomes visible; every cache of '
+            'the world is dumped (items/keys/values/iter/len/in/counters/max_size/on_miss) after every call. Order: (0) 3114 '
+            'scripted scenarios (falsy on_miss results, stored None, removal of a None-valued newest/oldest key then overflow, '
+            'lookups on a not-yet-full LRU, update/|= with exactly the current contents after a reorder, equal contents in a '
+            'different dict order, every argument kind overflowing with duplicates, one cache read into another then both '
+            'diverging, keyword arguments overlapping E; plus two oracle-only known-finding families), 14 (thorough 60) big-'
+            'capacity cases with bulk updates of 34-400 pairs, 300 adversarial scripts; (1) exhaustive: all histories of <=2 '
+            'calls over a 43-call alphabet on 3 keys x max_size 1-3 x both classes x on_miss none / total / raising; (2) 14k '
+            '(thorough 60k) sampled 3-5-call histories on pre-filled caches; (3) 1500 (6000) adversarial scripts of 13 kinds; '
+            '(4) 8000 (120000) random histories of 4-40 (thorough up to 300) calls. 3 cases of 4 run on the pointer-level Lean '
+            'model of the linked list (C02.hwstep), the others on the ring model (C02.wstep). Non-trivial = at least one '
+            'eviction happened in the reference cache; distinct = distinct whole case.')
     ASSUMPTIONS = ['keys are hashable with == consistent with hash; values are compared with ==',
                    'on_miss is a function of the key that does not touch the cache; it may return, raise KeyError or raise another exception (ValueError in the generators)',
                    'max_size is an int >= 1 and is not reassigned after construction',
-                   'one thread (C03 covers concurrency); update() is not given another LRI/LRU as its argument']
-    CORRESPONDENCE_NAME = 'C02.Driver (LRI/LRU model, C02.wstep) vs boltons.cacheutils.LRI/LRU'
+                   'one thread (C03 covers concurrency)',
+                   'a failing update(): the statement does not say what remains; the oracle accepts "the pairs received before the exception are assigned" (dict.update, and the model) or "none of them"; update(other_cache): the oracle accepts the source either untouched or looked up once per item (the model: looked up)']
+    CORRESPONDENCE_NAME = 'C02.Driver (LRI/LRU pointer-level model C02.hwstep and ring model C02.wstep) vs boltons.cacheutils.LRI/LRU'
 
     # ------------------------------------------------------------------ generation
     def small_alphabet(self, mx, with_copy):
@@ -496,6 +506,10 @@ class C02(Property):
                     for look in (['get', 0, 0, 5], ['setdefault', 0, 0, 5], ['pop', 0, 0, 5], ['get', 0, 0], ['getitem', 0, 0]):
                         add(cls, mx, None, km, nk, None, [['set', 0, 0, 0], look, ['in', 0, 0], ['get', 0, 0, 7]])
                         add(cls, mx, None, km, nk, [[0, 0]], [look, ['set', 0, 1, 0], ['setdefault', 0, 1, 4]])
+                    # pop(k, d) where d is the very object stored under k (seeded C02-2): the key must be gone afterwards
+                    for val in (0, 5):
+                        add(cls, mx, None, km, nk, None, fill[1:] + [['set', 0, 0, val], ['pop', 0, 0, val], ['get', 0, 0, 7], ['in', 0, 0]])
+                        add(cls, mx, [2, 1], km, nk, [[0, val]], [['pop', 0, 0, val], ['pop', 0, 0, val], ['getitem', 0, 0]])
                     # a key whose value is None removed in every way (as newest / as oldest key), then overflow
                     for rm in (['pop', 0, 0], ['pop', 0, 0, 5], ['del', 0, 0], ['popitem', 0]):
                         add(cls, mx, None, km, nk, None, fill[1:] + [['set', 0, 0, 0], rm])
@@ -1144,6 +1158,16 @@ class C02(Property):
     # ------------------------------------------------------------------ shrinking
     def shrink(self, case):
         ops = case['ops']
+        # big cases first: a smaller capacity, then halves / quarters of long pair lists
+        if case['max'] > 8:
+            for m in (2, 3, 5, 8, 16, 33, 64):
+                if m < case['max']:
+                    yield dict(case, max=m)
+        for i, op in enumerate(ops):
+            if op[0] in ('update', 'ior') and op[2] in PAIR_KINDS and len(op[3]) >= 8:
+                n = len(op[3])
+                for lo, hi in ((0, n // 2), (n // 2, n), (n // 4, n), (0, 3 * n // 4)):
+                    yield dict(case, ops=ops[:i] + [op[:3] + [op[3][lo:hi]] + op[4:]] + ops[i + 1:])
         # drop a suffix / one op
         for i in range(len(ops)):
             c = self.normalize(dict(case, ops=ops[:i] + ops[i + 1:]))
@@ -1151,6 +1175,10 @@ class C02(Property):
                 yield c
         if case['init']:
             yield dict(case, init=None)
+            n = len(case['init'])
+            if n >= 8:
+                yield dict(case, init=case['init'][:n // 2])
+                yield dict(case, init=case['init'][n // 2:])
             for j in range(len(case['init'])):
                 yield dict(case, init=case['init'][:j] + case['init'][j + 1:])
         for i, op in enumerate(ops):
